@@ -100,3 +100,11 @@ package clos
 //@   on-call SliceStable dispatch-caches-are-told: $ncall_ClassesChanged == 1
 //@   on-call mergeSupers ordered-before-merging: $ncall_SliceStable == 1
 //@   full-loop rangeindex+1<len(subs)
+
+// C12: a class inherits from another one when a class of that NAME is in its
+// inheritance list: a redefinition registers a new class object under the old
+// name, and the subclasses that were built on the old object must still be found.
+//@ func clos.(*StandardClass).Inherits
+//@   property C12
+//@   ensures by-name: result0 == (exists j :: 0 <= j && j < len(c.inherit) && Name(c.inherit[j]) == Name(sc))
+//@   loop rangeindex: invariant none-so-far: forall j :: (0 <= j && j <= rangeindex) ==> Name(c.inherit[j]) != Name(sc)
